@@ -36,7 +36,7 @@ var c01Lits = []string{"0", "1", "-1", "2147483647", "-2147483648", "2147483648"
 	"1 'mg'", "0 days", "5 years", "1.5 'kg'", "-3 months", "%v", "%e", "%m", "%missing", "$this", "Patient", "Patient.name", "Patient.name.given", "Patient.birthDate", "Patient.active", "Patient.name.first()", "(1 | 2)", "Patient.nosuch"}
 
 func runC01(c *Ctx) {
-	c.meta.Rule = "(a) generated programs (ProgGen, depth 1..4) over generated resources of every R4 type (quick: 40 types x 6 programs, thorough: all x 25); (b) every function of the table x arities 0..3 x argument texts from a 48-entry boundary pool x 6 input expressions; (c) 22 binary operators, polarity, is/as, indexer x boundary operands; (d) byte-mutated sources; (e) EvaluateAsBool/String/Int32 on a sample; (c') 22 operators x the full square of 21 numeric/quantity operands; (f) patch add/insert/delete/replace/move x paths x {right, wrong, nil} values x nil resource; (g) evaluation and patch over messages whose choice / contained-resource wrappers and primitives are empty; non-trivial = call returned a value; distinct by source text"
+	c.meta.Rule = "(a) generated programs (ProgGen, depth 1..4) over generated resources of every R4 type (quick: 40 types x 6 programs, thorough: all x 25); (b) every function of the table x arities 0..3 x argument texts from a 48-entry boundary pool x 6 input expressions; (c) 22 binary operators, polarity, is/as, indexer x boundary operands; (d) byte-mutated sources; (e) EvaluateAsBool/String/Int32 on a sample; (b') every 1-/2-argument function x the square of 8 boundary integers x 5 receivers; string literals cut inside an escape; (c') 22 operators x the full square of 21 numeric/quantity operands; (f) patch add/insert/delete/replace/move x paths x {right, wrong, nil} values x nil resource; (g) evaluation and patch over messages whose choice / contained-resource wrappers and primitives are empty; non-trivial = call returned a value; distinct by source text"
 	input := []fhir.Resource{mustResource(`{"resourceType":"Patient","id":"p","active":true,"birthDate":"1980-02-29","name":[{"family":"Smith","given":["a","b"]},{"given":["c"]}],"extension":[{"url":"u","valueQuantity":{"unit":"mg"}}]}`)}
 	env := []fhirpath.EvaluateOption{
 		envVar("v", system.Collection{system.Integer(3), system.String("s")}),
@@ -133,6 +133,40 @@ func runC01(c *Ctx) {
 	}
 	for _, src := range c01Targeted {
 		run("targeted", src, input)
+	}
+	// every function that accepts one or two arguments x the square of a small integer boundary set,
+	// on receivers of three shapes: sums, differences and positions computed from two arguments are
+	// where an intermediate int32 wraps
+	ints := []string{"0", "1", "3", "-1", "2147483647", "2147483645", "(-2147483648)", "2147483646"}
+	for _, fn := range names {
+		f := table[fn]
+		if f.IsTypeFunction {
+			continue
+		}
+		for _, recv := range []string{"'abcdef'", "'héllo'", "Patient.name.given", "(10 | 20 | 30)", "12.5"} {
+			if f.MinArity <= 1 && f.MaxArity >= 1 {
+				for _, a := range ints {
+					run("fn-int", recv+"."+fn+"("+a+")", input)
+				}
+			}
+			if f.MinArity <= 2 && f.MaxArity >= 2 {
+				for _, a := range ints {
+					for _, b := range ints {
+						run("fn-int", recv+"."+fn+"("+a+", "+b+")", input)
+					}
+				}
+			}
+		}
+	}
+	// string literals that stop in the middle of an escape, with and without the closing quote
+	bsl := string(rune(92))
+	for _, pre := range []string{"", "a", "é"} {
+		for _, esc := range []string{bsl, bsl + "u", bsl + "u0", bsl + "u00", bsl + "u00e", bsl + "u00e9", bsl + "uD83D", bsl + "uZZZZ", bsl + "x", bsl + bsl, bsl + "'", bsl + "u00e" + bsl, bsl + "u" + bsl + "u0041"} {
+			for _, post := range []string{"'", "", "z'", "'.length()", "' = 'x'"} {
+				run("escape", "'"+pre+esc+post, input)
+				run("escape", "Patient.name.where(family = '"+pre+esc+post+")", input)
+			}
+		}
 	}
 	// ---- (c) operators x boundary operands
 	ops := []string{"+", "-", "*", "/", "div", "mod", "&", "|", "<", "<=", ">", ">=", "=", "!=", "~", "!~", "in", "contains", "and", "or", "xor", "implies"}
